@@ -264,3 +264,40 @@ End Elem.
 
 (* row stride (in elements) of DenseMatrix<T, C> on x86-64: rows aligned to 32 bytes *)
 Definition dense_stride (size C : nat) : nat := stride size C 32.
+
+(* ---------- which allocation a view points into (known finding F24) ----------
+   __getbuffer__ stores the raw pointer of the Vec buffer in the Py_buffer and nothing
+   keeps that buffer alive or in place: ScoringMatrix.calculate / Scanner take
+   `&mut StripedSequence` and configure_wrap() resizes the Vec.  Vec::resize_with keeps
+   the buffer while the new length fits the capacity and otherwise grows it
+   (RawVec::grow_amortized: capacity max(2*cap, needed)); the model gives the grown
+   buffer a fresh identity (the allocator may move it; the old pointer is then dangling). *)
+Record valloc := { va_id : nat; va_cap : nat; va_rows : nat }.
+
+Definition vec_resize (a : valloc) (n : nat) : valloc :=
+  if n <=? va_cap a then {| va_id := va_id a; va_cap := va_cap a; va_rows := n |}
+  else {| va_id := S (va_id a); va_cap := Nat.max (2 * va_cap a) n; va_rows := n |}.
+
+(* Stripe::stripe allocates with_capacity(rows, rows+32).  The generic stripe_into then
+   reserves rows+32 *additional* rows (capacity 2*rows+64 by amortised growth; 32 for an
+   empty sequence); the AVX2 stripe_into only resizes (capacity rows+32) and for an empty
+   sequence returns early, leaving the default matrix (capacity 0) in place. *)
+Definition stripe_alloc (avx2 : bool) (R : nat) : valloc :=
+  {| va_id := 0;
+     va_cap := if avx2 then (if R =? 0 then 0 else R + 32) else (if R =? 0 then 32 else 2 * R + 64);
+     va_rows := R |}.
+
+(* configure(motif of M rows) on a sequence of R sequence rows and [wrap] look-ahead rows *)
+Definition configure_alloc (R : nat) (st : valloc * nat) (M : nat) : valloc * nat :=
+  let (a, wrap) := st in
+  if M =? 0 then st
+  else if wrap <? M - 1 then (vec_resize a (R + (M - 1)), M - 1) else st.
+
+Definition run_alloc (avx2 : bool) (R : nat) (Ms : list nat) : valloc * nat :=
+  fold_left (configure_alloc R) Ms (stripe_alloc avx2 R, 0).
+
+(* a view exported after the history [before] and read after [before ++ after]: it shows
+   R*C > 0 elements through a pointer into a buffer that has been given up *)
+Definition view_dangling (avx2 : bool) (R : nat) (before after : list nat) : bool :=
+  negb (R =? 0) &&
+  negb (va_id (fst (run_alloc avx2 R before)) =? va_id (fst (run_alloc avx2 R (before ++ after)))).
